@@ -358,15 +358,15 @@ PROPS = {
 # Later extensions of the generators and oracles (sections 13 and 14 of DESIGN.md), appended to the rules.
 _ADDENDA = {
     "C01": "later extensions: regexp stages built from pieces (named groups in optional parts and alternation branches), twin and repeated records, records with equal labels share one attribute map in the mock storage (a write into it is reported), IPv6 addresses with every hexadecimal letter; rounds 7-8: typed comparisons over composite JSON fields; a second stage (TestC01Backend) evaluates the same selector over the same fake containers once by the Docker backend itself and once by the engine (capabilities hidden) and compares the answers; round 9: one JSON document in ten is cut inside the value of its first member; round 10: plain lines that end in a carriage return and needles that end there; byte sizes in unusual spellings (.5, 1,000) are left undecided by the model; round 11: distinct over 1-3 labels",
-    "C02": "later extensions: regexes with the user's own anchors around an alternation, the same label named twice; a logfmt / regexp / label_format stage after the selector that, on every third line, writes labels named like the container's own (every line is checked against its container's labels overlaid with its own pairs); metric queries that add a second aggregation over another selection (reads compared as a multiset); the fake daemon honours list filters and All; the daemon window must cover the needed interval to the second and be at most a minute wider; rounds 7-8: Docker label values that are paths, regex-like texts, differ in case or carry surrounding blanks; round 9: the since / until options are read by Docker's own rules (seconds with a fraction scaled by its digits) and compared at nanosecond precision; 'match anything' patterns meet values with line breaks and blanks; round 10: Docker label keys named like record-derived labels (msg, level, trace_id, span_id)",
-    "C03": "later extensions: messages of exactly / one less / one more than 4, 16, 32 and 64 KiB with and without a final line break; half of the streams are sequential logs whose neighbours share a second, in the daemon's fixed-width spelling; a fault that replaces one character of a well-formed timestamp (a sign in a numeric field, a wrong separator, another digit); empty and timestamp-only frames; round 8: every stream is also served by the fake daemon as one container's log (alone or next to 1-3 others) and read by {} through Querier and engine - reported streams make the query fail, others contribute exactly their records; faults often hit the first frame; round 9: a quarter of the cases end their streams with io.ErrUnexpectedEOF instead of io.EOF; round 11: Next is called again after the end, nothing more may come and Err must not change",
+    "C02": "later extensions: regexes with the user's own anchors around an alternation, the same label named twice; a logfmt / regexp / label_format stage after the selector that, on every third line, writes labels named like the container's own (every line is checked against its container's labels overlaid with its own pairs); metric queries that add a second aggregation over another selection (reads compared as a multiset); the fake daemon honours list filters and All; the daemon window must cover the needed interval to the second and be at most a minute wider; rounds 7-8: Docker label values that are paths, regex-like texts, differ in case or carry surrounding blanks; round 9: the since / until options are read by Docker's own rules (seconds with a fraction scaled by its digits) and compared at nanosecond precision; 'match anything' patterns meet values with line breaks and blanks; round 10: Docker label keys named like record-derived labels (msg, level, trace_id, span_id); round 12: raw-string selector values, carriage returns and quote characters in label values",
+    "C03": "later extensions: messages of exactly / one less / one more than 4, 16, 32 and 64 KiB with and without a final line break; half of the streams are sequential logs whose neighbours share a second, in the daemon's fixed-width spelling; a fault that replaces one character of a well-formed timestamp (a sign in a numeric field, a wrong separator, another digit); empty and timestamp-only frames; round 8: every stream is also served by the fake daemon as one container's log (alone or next to 1-3 others) and read by {} through Querier and engine - reported streams make the query fail, others contribute exactly their records; faults often hit the first frame; round 9: a quarter of the cases end their streams with io.ErrUnexpectedEOF instead of io.EOF; round 11: Next is called again after the end, nothing more may come and Err must not change; round 12: records of 1 MiB and more",
     "C04": "later extensions: a third of the cases first run 1-3 SelectLogs calls over container subsets on the same Querier (each merged stream must be its own selection); a quarter give containers several names; rounds 7-8: the same few texts everywhere; in one case of eight one container's log cannot be decoded from its first byte and the merge must not end without an error; round 9: a fifth of the cases query from a start inside the data while the fake daemon honours since / until like the real one - every record from the start on must be there; round 10: 16 KiB records (chunks of a long line), often last in a log; round 11: containers that stamp their lines in another time zone",
-    "C05": "later extensions: operands that are bare operations binding strictly tighter than their parent (drawn deliberately one level up), templates over the whole function table, CR in raw strings, k with leading zeros",
-    "C06": "later extensions: a line of another shape under a pattern stage must stay unchanged; nested keys that are empty or look like indexes, JSON paths with a selector of the wrong type; round 9: non-ASCII delimiters in lines and pattern literals; round 10: the mock storage hands out copies of the lines in memory of their own (writes through an alias show); round 11: JSON numbers are compared exactly, not through float64",
-    "C07": "later extensions: alignLeft/alignRight, replace, trimPrefix/trimSuffix, b64enc, contains, regexReplaceAll(Literal), count, unixEpochMillis in the template grammar; record-dependently failing templates; a quarter of the cases put a json parser stage in front (labels from JSON numbers and booleans); C1 CSI colour sequences; round 8: templates that fail inside the template engine itself (field of a string, wrong argument type or count, index into a string); round 11: an error label dropped again between a failing parser and a failing template",
-    "C08": "later extensions: twin records (an empty value against a missing label), repeated records (same timestamp, line and labels), packed lines; round 8: a second stage (TestC08Docker) over 1-8 fake containers merged by the Docker backend - the timestamps returned under a limit L are the L smallest; round 9: the Docker stage sometimes holds more than 100 matching records; round 11: the Docker stage filters behind rewriting stages",
-    "C09": "later extensions: ranges reaching before 1970, infinite samples, quantile parameters above 1; round 8: steps that are not binary fractions of a second; round 9: a second stage (TestC09Docker) cuts the windows out of the merged logs of 1-6 fake containers and compares with a brute-force count; round 11: the Docker stage's daemon cuts at since like the real one",
-    "C10": "later extensions: planted label-set pairs (swapped values, an empty value against a missing label), up to three grouping levels incl. clauses that keep no label; round 7: identical-records mode (n records with one line give one series counting n); round 9: names that differ only in letter case; round 10: near-values mode (integers beyond 2^53, blanks, case, leading zeros, composed and decomposed accents: one series per value)",
+    "C05": "later extensions: operands that are bare operations binding strictly tighter than their parent (drawn deliberately one level up), templates over the whole function table, CR in raw strings, k with leading zeros; round 12: names that are function words in another letter case",
+    "C06": "later extensions: a line of another shape under a pattern stage must stay unchanged; nested keys that are empty or look like indexes, JSON paths with a selector of the wrong type; round 9: non-ASCII delimiters in lines and pattern literals; round 10: the mock storage hands out copies of the lines in memory of their own (writes through an alias show); round 11: JSON numbers are compared exactly, not through float64; round 12: a pair of lines whose fields differ only in where a quote sits",
+    "C07": "later extensions: alignLeft/alignRight, replace, trimPrefix/trimSuffix, b64enc, contains, regexReplaceAll(Literal), count, unixEpochMillis in the template grammar; record-dependently failing templates; a quarter of the cases put a json parser stage in front (labels from JSON numbers and booleans); C1 CSI colour sequences; round 8: templates that fail inside the template engine itself (field of a string, wrong argument type or count, index into a string); round 11: an error label dropped again between a failing parser and a failing template; round 12: two line_format stages in a row",
+    "C08": "later extensions: twin records (an empty value against a missing label), repeated records (same timestamp, line and labels), packed lines; round 8: a second stage (TestC08Docker) over 1-8 fake containers merged by the Docker backend - the timestamps returned under a limit L are the L smallest; round 9: the Docker stage sometimes holds more than 100 matching records; round 11: the Docker stage filters behind rewriting stages; round 12: drop / keep value matchers over JSON numbers and booleans (shared with C01)",
+    "C09": "later extensions: ranges reaching before 1970, infinite samples, quantile parameters above 1; round 8: steps that are not binary fractions of a second; round 9: a second stage (TestC09Docker) cuts the windows out of the merged logs of 1-6 fake containers and compares with a brute-force count; round 11: the Docker stage's daemon cuts at since like the real one; round 12: the Docker stage moves grids and lines off the millisecond",
+    "C10": "later extensions: planted label-set pairs (swapped values, an empty value against a missing label), up to three grouping levels incl. clauses that keep no label; round 7: identical-records mode (n records with one line give one series counting n); round 9: names that differ only in letter case; round 10: near-values mode (integers beyond 2^53, blanks, case, leading zeros, composed and decomposed accents: one series per value); round 12: by over by on overlapping windows",
     "C11": "later extensions: chains of 2-4 grouping levels that all name one label in every by/without order; validity predicates allow the model's error bound",
     "C12": "later extensions: scalars that are exactly the value of some series, sides that are vector(c) or filled with 'or vector(c)', operands that are parenthesised divisions/modulos by a literal (NaN meets the outer operator); every point is compared within the model's propagated error bound, points the bound cannot decide are compared for presence only; round 9: a third of the cases use the ambiguous label pool with permuted pairs; round 10: a second stage (TestC12Docker) compares a binary operation between two selections over the Docker backend with the pointwise combination of its sides evaluated alone; round 11: sides made NaN (/ 0, % 0) under and / or / unless, also in the Docker stage",
     "C13": "later extensions: bare scalar literal operands where the engine supports the expression, and ((x op a) op b) op c with explicit parentheses; round 8: series mode - vector operands computed from records with two series, the second missing from some operands; the conventional reading is evaluated series by series; round 9: half of the cases evaluate over a grid of instants, all of which must give the same value; round 10: sparse series mode - operands that change from instant to instant",
@@ -374,9 +374,9 @@ _ADDENDA = {
     "C15": "later extensions: any foreground colour code counts as a palette colour; round 8: container names are any text (percent signs, printf verbs, quotes, tabs); round 9: messages as long as a writer's buffer; round 11: 255-300 distinct container names",
     "C16": "later extensions: an explicit zero --since; ranges that are a multiple of 250s give or take a fraction of a second; when --start is written as fractional seconds every millisecond of its second is tried; the end-to-end window may be a few seconds wider; round 7: malformed values, often a flag without a value, also go through the cobra command, which has to fail; round 10: the end-to-end stage compares since with the resolved start at nanosecond precision",
     "C17": "later extensions: queries written for their data and evaluated on grids with a step far above or below the range; templates over the whole function table; regexps with optional named groups; ip() filters over address-like garbage; huge k; rounds 7-8: template functions with patterns of their own given broken ones over several records; keys of the lengths at which fixed-size buffers end; round 9: origin 'known-mistake' with a must-fail oracle; round 10: quantile parameters at and beyond the ends of [0, 1]; round 11: extraction expressions that are nearly nothing",
-    "C18": "later extensions: generated nestings of integer-valued aggregations over the same labels, NaN inputs of aggregations, limits cutting through cross-container ties; a wave of opens that does not fill up switches the completion-order gating off (class completion-order-not-owned) instead of failing; rounds 7-8: rare but legal Docker label keys; a race-detector stage (TestC18OpenFaults) in which 0..n of the concurrent opens fail; round 11: a scale stage (TestC18Scale) with thousands of distinct values through distinct",
-    "C19": "later extensions: typed comparisons (number, duration, bytes, ip) as f, g, a, b, often over values that do not convert (negation partition only for filters that have a negation); (?i) literals paired with lines of special case folding; composite JSON labels; rounds 7-8: a and b as the bounds of one label over values on the bounds; a fifth of the cases over the Docker backend with filters on msg and extracted fields; round 11: bursts of equal records at one instant",
-    "C20": "later extensions: the letter range ends a, z, A, Z in the exhaustive alphabet and their ASCII neighbours in the random pool; keys spelled like container attributes; the fake daemon honours list filters; '| json' after the stage has seen hundreds of other keys; rounds 7-8: varied label values (paths, blanks, regex-like); keys of buffer-boundary lengths; round 11: the selector followed by a label-rewriting stage and a filter on the new name",
+    "C18": "later extensions: generated nestings of integer-valued aggregations over the same labels, NaN inputs of aggregations, limits cutting through cross-container ties; a wave of opens that does not fill up switches the completion-order gating off (class completion-order-not-owned) instead of failing; rounds 7-8: rare but legal Docker label keys; a race-detector stage (TestC18OpenFaults) in which 0..n of the concurrent opens fail; round 11: a scale stage (TestC18Scale) with thousands of distinct values through distinct; round 12: label_format renames that depend on each other",
+    "C19": "later extensions: typed comparisons (number, duration, bytes, ip) as f, g, a, b, often over values that do not convert (negation partition only for filters that have a negation); (?i) literals paired with lines of special case folding; composite JSON labels; rounds 7-8: a and b as the bounds of one label over values on the bounds; a fifth of the cases over the Docker backend with filters on msg and extracted fields; round 11: bursts of equal records at one instant; round 12: and over a parenthesised or-group",
+    "C20": "later extensions: the letter range ends a, z, A, Z in the exhaustive alphabet and their ASCII neighbours in the random pool; keys spelled like container attributes; the fake daemon honours list filters; '| json' after the stage has seen hundreds of other keys; rounds 7-8: varied label values (paths, blanks, regex-like); keys of buffer-boundary lengths; round 11: the selector followed by a label-rewriting stage and a filter on the new name; round 12: quote characters at the ends of label values",
 }
 for _k, _v in _ADDENDA.items():
     PROPS[_k]["rule"] = PROPS[_k]["rule"] + "; " + _v
